@@ -393,7 +393,7 @@ def check_C06(ctx):
 # ------------------------------------------------------------------------------------------------
 C09_VERDICTS = {"error-differs", "value-differs", "reader-lends", "borrowed-not-verbatim", "verbatim-not-lent", "transformed-lent", "entry-points-disagree"}
 C10_VERDICTS = {"fault-swallowed", "drained-past-cap", "cap-ignored", "write-fault-swallowed", "not-a-prefix", "value-from-truncated-input",
-                "affected-by-a-cap-it-fits-under", "fault-swallowed-by-the-iterator"}
+                "affected-by-a-cap-it-fits-under", "fault-swallowed-by-the-iterator", "write-fault-not-returned-as-the-io-error"}
 
 
 def reader_check(ctx, which):
